@@ -267,17 +267,17 @@ def C05_sum_within_offer_full : Prop :=
     ∀ a ∈ (round m offers descs order).accepts, ∃ o ∈ order, a.oid = o.oid ∧
       sumOk o.res (a.launches.map (·.task)) = true
 
-def witnessClass (cpu : Nat) (expr : String) (inb : List Bool) : Class :=
+def C05_witnessClass (cpu : Nat) (expr : String) (inb : List Bool) : Class :=
   { cts := [], cpu := cpu, mem := 0, portsExpr := expr.toList, inbound := inb }
 
-def witnessOffer : Offer :=
+def C05_witnessOffer : Offer :=
   { oid := 0, attrs := [("machine_id", "m0")], res := { cpu := some 4, mem := some 4096, ports := some [(9000, 9100), (30000, 30100)] } }
 
 /-- Finding `cpu_mem_not_subtracted`: an offer of 1 cpu takes two tasks of 0.75 cpu each. -/
 theorem C05_finding_cpu_mem_not_subtracted : ¬ C05_sum_within_offer_full := by
   intro h
-  have := h ⟨true, true⟩ [witnessOffer]
-    [⟨0, [], some (witnessClass 3 "" [])⟩, ⟨1, [], some (witnessClass 3 "" [])⟩] [witnessOffer] (by decide)
+  have := h ⟨true, true⟩ [C05_witnessOffer]
+    [⟨0, [], some (C05_witnessClass 3 "" [])⟩, ⟨1, [], some (C05_witnessClass 3 "" [])⟩] [C05_witnessOffer] (by decide)
   revert this
   decide
 
@@ -328,7 +328,7 @@ def C05_all_claims_distinct_full : Prop :=
     inbound TCP channel is given 9000 again as its dynamic port. -/
 theorem C05_finding_static_ports_not_reserved : ¬ C05_all_claims_distinct_full := by
   intro h
-  have := h ⟨true, true⟩ [witnessOffer] [⟨0, [], some (witnessClass 1 "9000" [true])⟩] [witnessOffer] (by decide)
+  have := h ⟨true, true⟩ [C05_witnessOffer] [⟨0, [], some (C05_witnessClass 1 "9000" [true])⟩] [C05_witnessOffer] (by decide)
   revert this
   decide
 
